@@ -44,7 +44,8 @@ RETRY_FOR = [[], [], ["C19Err"], ["LookupError", "ValueError"], ["KeyError"], ["
              ["C19Other", "ConcurrencyRetryError"], ["ValueError", "C19Err", "KeyError"]]
 KINDS = ["RetryError", "RetryError", "RetryError", "ConcurrencyRetryError", "C19Err", "C19SubErr", "C19Other", "ValueError",
          "KeyError", "LookupError"]
-ARGS = [[], ["later"], ["a", 1], [3], ["k"], ["x", "y", "z"]]
+# (the last one is long enough to be externalised by the client data store when the failure is stored: default threshold 1024)
+ARGS = [[], ["later"], ["a", 1], [3], ["k"], ["x", "y", "z"], ["big", "B" * 1500]]
 
 
 def T():
